@@ -276,8 +276,16 @@ LYS 1
 [ bonds ]
 BB SC1 1 0.33 5000
 SC1 SC2 1 0.28 5000
+[ moleculetype ]
+; a cap that is not an amino acid (its name happens to be part of "ASN"/"ASP")
+AS 1
+[ atoms ]
+1 SN0 1 AS BB 1 0.0 72.0
+2 C1 1 AS SC1 2 0.0 36.0
+[ bonds ]
+BB SC1 1 0.31 5000
 [ link ]
-resname "ALA|GLY|LYS"
+resname "ALA|GLY|LYS|AS"
 [ bonds ]
 BB +BB 1 0.35 4000
 [ modification ]
@@ -298,6 +306,10 @@ SC1 SC2 1 0.30 7000
 """
 
 
+PROTEIN = {"GLY", "ALA", "CYS", "VAL", "LEU", "ILE", "MET", "PRO", "HYP", "ASN", "GLN", "ASP", "ASP0", "GLU", "GLU0", "THR", "SER",
+           "LYS", "LYS0", "ARG", "ARG0", "HIS", "HISH", "PHE", "TYR", "TRP"}
+
+
 def _snapshot(mol):
     return {k: dict(mol.nodes[k]) for k in mol.nodes}, {t: [(tuple(i.atoms), tuple(i.parameters)) for i in lst] for t, lst in mol.interactions.items()}
 
@@ -305,11 +317,12 @@ def _snapshot(mol):
 @condition("C01.modifications",
            anchors=["polyply.src.apply_modifications:apply_mod", "polyply.src.apply_modifications:_patch_protein_termini",
                     "polyply.src.apply_modifications:ApplyModifications.run_molecule"],
-           rejects=(), selector_only=True, must_cover=["default termini", "explicit", "several", "offset", "relabelled"],
+           rejects=(), selector_only=True, must_cover=["default termini", "explicit", "several", "offset", "relabelled", "non-protein terminus untouched"],
            assumes=["residue ids >= 1"],
            outside=["modifications that add atoms", "-mods spec parsing (vermouth parse_residue_spec is used as is)"],
-           bounds={"quick": dict(seqs=[["ALA", "GLY", "LYS"], ["LYS", "ALA"], ["GLY"]], starts=[1, 4]),
-                   "thorough": dict(seqs=[["ALA", "GLY", "LYS"], ["LYS", "ALA"], ["GLY"], ["LYS", "LYS", "ALA", "GLY"]], starts=[1, 2, 4, 30])})
+           bounds={"quick": dict(seqs=[["ALA", "GLY", "LYS"], ["LYS", "ALA"], ["GLY"], ["AS", "ALA", "GLY"], ["GLY", "AS"]], starts=[1, 4]),
+                   "thorough": dict(seqs=[["ALA", "GLY", "LYS"], ["LYS", "ALA"], ["GLY"], ["LYS", "LYS", "ALA", "GLY"], ["AS", "ALA", "GLY"],
+                                          ["GLY", "AS"], ["AS", "LYS", "AS"]], starts=[1, 2, 4, 30])})
 def modifications(sx, B):
     """Real ApplyModifications after the real MapToMolecule/ApplyLinks on small peptides: default terminal modifications or an explicit
     -mods selection, residue ids starting anywhere, node keys relabelled. Claims: a modification changes only the attributes it names, on
@@ -359,6 +372,10 @@ def modifications(sx, B):
     expect_nodes = {k: dict(v) for k, v in before_nodes.items()}
     expect_new = []
     for resid, modname in targets:
+        if seq[resids.index(resid)] not in PROTEIN:
+            # a terminal modification is applicable to amino-acid residues only; anything else is left alone (with a warning)
+            sx.cover("non-protein terminus untouched")
+            continue
         atoms = {before_nodes[k]["atomname"]: k for k in before_nodes if before_nodes[k]["resid"] == resid}
         for aname, repl in table[modname].items():
             if aname in atoms:
